@@ -47,6 +47,28 @@ Lemma exceptions_refuted :
   forallb rejected_ret (known_cache_returners ++ cache_accessors) = true.
 Proof. split; vm_compute; reflexivity. Qed.
 
+(* public methods of the public classes (and of the result classes they hand out), translated
+   with `self` as parameter 0 *)
+Definition method_ok (fp : string * prog) : bool := inb (fst fp) method_exempt || safe_method (snd fp).
+
+Lemma methods_all_ok : forallb method_ok public_methods = true.
+Proof. vm_compute. reflexivity. Qed.
+
+Lemma method_exceptions_refuted :
+  forallb (fun f => match lookup public_methods f with Some p => negb (safe_method p) | None => false end)
+          method_exempt = true.
+Proof. vm_compute. reflexivity. Qed.
+
+Theorem public_methods_safe : forall f p, In (f, p) public_methods -> inb f method_exempt = false ->
+  forall st st', init_ok p st -> exec (body p) st st' ->
+  (forall b, arg_buffer p st b -> (forall i, org st b = LArg i -> i <> 0) -> ver st' b = ver st b) /\
+  (forall b, In b (rets st') -> cached st' b = false /\ org st' b <> LArg 0).
+Proof.
+  intros f p Hin Hex. pose proof methods_all_ok as A. rewrite forallb_forall in A.
+  specialize (A _ Hin). unfold method_ok in A. cbn [fst snd] in A. rewrite Hex in A. cbn [orb] in A.
+  exact (safe_method_sound p A).
+Qed.
+
 (* ---- combination with soundness ---- *)
 
 Lemma public_ok_in f p : In (f, p) public_functions -> public_ok (f, p) = true.
